@@ -71,7 +71,7 @@ TracePub ==
          o == e.obs
          p == Outcome(h, m)
      IN IF /\ ~failed
-           /\ e.ts \in TsOps
+           /\ e.ts \in AllTsOps
            /\ Alive(o)
            /\ (h.cfg.predict /\ ~m.loose) =>
                  /\ o.hook.got = Got(p.hook) /\ o.rec.got = Got(p.rec)
@@ -94,7 +94,7 @@ TraceStage ==
          p == Outcome(hb, s.m)
      IN IF /\ ~failed
            /\ Fresh(h)
-           /\ s.ts \in TsOps /\ s.k \in 1..64 /\ s.j \in 0..64
+           /\ s.ts \in AllTsOps /\ s.k \in 1..64 /\ s.j \in 0..64
            /\ AliveN(o, c)
            /\ (h.cfg.predict /\ ~s.m.loose) =>
                  /\ o.hook.got = Got(p.hook) /\ o.rec.got = Got(p.rec)
